@@ -27,7 +27,12 @@ pub fn run_cli_flags(args: &Args, property: &str) -> Report {
     for i in 0..n {
         // each property exercises the part of the flag mapping it depends on
         let opts = GenOpts { error_pct: if property == "C04" { 50 } else { 10 }, ..GenOpts::default() };
-        let p = gen_project(&mut rng, &opts);
+        let mut p = gen_project(&mut rng, &opts);
+        if property == "C13" {
+            // a source that certainly ends with a text line: the trailing-newline setting is visible in its output
+            p.files.push(("zz_plain.txt.txtpp".to_string(), b"the last line is text\n".to_vec()));
+            p.sources.push("zz_plain.txt.txtpp".to_string());
+        }
         let variants: &[usize] = match property {
             "C06" => &[3],
             "C07" => &[4],
@@ -41,6 +46,11 @@ pub fn run_cli_flags(args: &Args, property: &str) -> Report {
         let forced = i < 2 && args.shard < 2 && (variants.contains(&3) || variants.contains(&4)) && property != "C13";
         if forced {
             variant = if variants.contains(&4) && (i == 1 || !variants.contains(&3)) { 4 } else { 3 };
+        }
+        // C13: the first case of every shard is `verify -n` of a tree built without the final line ending
+        let forced_n = property == "C13" && i == 0;
+        if forced_n {
+            variant = 3;
         }
         let mut cfg = RunCfg::build_all();
         cfg.threads = 1 + rng.below(4);
@@ -108,7 +118,7 @@ pub fn run_cli_flags(args: &Args, property: &str) -> Report {
             3 => {
                 cfg.mode = "verify";
                 sub = Some("verify");
-                if rng.chance(1, 2) {
+                if forced_n || rng.chance(1, 2) {
                     cfg.trailing = false;
                     flags.push(if rng.chance(1, 2) { "-n".into() } else { "--no-trailing-newline".into() });
                 }
@@ -132,7 +142,7 @@ pub fn run_cli_flags(args: &Args, property: &str) -> Report {
                 b0.trailing = cfg.trailing;
             }
             built_ok = run_impl(&pa, &b0, &log).verdict == "ok";
-            if variant == 2 || (variant == 3 && (forced || rng.chance(1, 2))) {
+            if variant == 2 || (variant == 3 && !forced_n && (forced || rng.chance(1, 2))) {
                 // make one output stale or (needed only) missing; verify must then fail, also through the exit status
                 let o = output_name(&p.sources[rng.below(p.sources.len())]);
                 if variant == 2 && rng.chance(1, 2) {
@@ -188,6 +198,7 @@ pub fn run_cli_flags(args: &Args, property: &str) -> Report {
         }
         rep.sigs.insert(format!("variant{variant}|{}|rec={}", lib.verdict, cfg.recursive));
         let cli_ok = out.status.success();
+        rep.count(&format!("cli-case:{}{}{}|lib={}", match variant { 0 => "build -n", 1 | 2 => "needed", 3 => "verify", _ => "clean" }, if flags.iter().any(|x| x == "-n" || x == "--no-trailing-newline") { " -n" } else { "" }, if top.is_empty() { "" } else { " (top -N)" }, lib.verdict));
         let mut bad: Option<String> = None;
         if cli_ok != (lib.verdict == "ok") {
             bad = Some(format!("CLI exit success={cli_ok}, library verdict `{}`", lib.verdict));
